@@ -15,7 +15,7 @@ new_unchecked is the only other construction site; (EXPR) the set predicates hav
 x<=max, contains_interval = contains(o.min) and contains(o.max), overlaps = contains(o.min) or o.contains(min), length =
 max - min, intersection = new(max(min,min'), min(max,max')) under overlaps, clamp = max(min(x,max),min); AngleInterval::intersects =
 contains(o.start) or o.contains(start); signed_compliment_2pi = a - 2pi for a >= 0, a + 2pi otherwise."""
-NOT_DECIDED = "relations between two results beyond the zero case (rotating the first by the directed angle gives the second; Cw + Ccw = full turn), AngleInterval::contains near the 0/2pi seam and the ANGLE_TOL slack, magnitudes ~ 1e6 where % loses bits, one-ulp neighbourhoods"
+NOT_DECIDED = "relations between two results beyond the zero case (rotating the first by the directed angle gives the second; Cw + Ccw = full turn), the numerical margin of AngleInterval::contains (its two-branch shape is pinned), magnitudes ~ 1e6 where % loses bits, one-ulp neighbourhoods"
 ASSUMPTIONS = ["real arithmetic with closed bounds (the property states closed ranges because rounding lands on the end points)",
                "fmod: |x % m| < m with the sign of x; atan2 in [-pi, pi]"]
 
@@ -166,6 +166,25 @@ def run(cx):
                 g2 = cx.guarded(b, s.bb, '(call f64::is_nan (param max))', False) is not None
                 cx.ob('GUARD', 'Interval::new:nan', g1 and g2, 'new asserts that neither bound is NaN before building the interval', where=s)
     # ---------------------------------------------------------------- set predicates
+    b = cx.fn('common::angles::AngleInterval::contains')
+    if b:
+        A = '(call *angle_to_2pi (param angle))'
+        S_, E_ = '(field start (param self))', '(field angle (param self))'
+        END = f'(add (add {E_} {S_}) $tol)'
+        rets = cx.rets(b)
+        seen = {}
+        for s_, d in rets:
+            at = cx.guarded(b, s_.bb, f'(le (sub {S_} $t0) {A})', True)
+            bf = cx.guarded(b, s_.bb, f'(le (sub {S_} $t0) {A})', False)
+            if at is not None and match(f'(le {A} {END})', d) is not None:
+                seen['at-or-after-start'] = at['t0'][0] == 'const' and 0 < at['t0'][1] <= 1e-9
+            elif bf is not None and match(f'(le (add {A} TAU) {END})', d) is not None:
+                seen['before-start'] = True
+            else:
+                seen['other'] = show(d)[:160]
+        cx.ob('EXPR', 'AngleInterval::contains', seen == {'at-or-after-start': True, 'before-start': True},
+              'with a = angle_to_2pi(angle): a at or after start (less a small constant slack) is inside iff a <= start + extent + slack; an a before start is inside iff a + 2pi <= start + extent + slack '
+              '(the part of the interval that wraps past 2pi) - so an interval ending exactly on the 0/2pi seam contains its end angle', where=b.file, found=str(seen))
     b = cx.fn(f'{IV}::contains')
     if b:
         al = bool_alts(cx, b)
